@@ -138,6 +138,20 @@ func (vc *VC) call(fr *Frame, st *State, ins ssa.Instruction, cc *ssa.CallCommon
 		}
 		callee = nil
 	}
+	// calls through a function-typed struct field (evm.Context.CanTransfer(...)): a contract may be written for
+	// the field as "StructType.field"; embedded structs are searched by the field's declaring struct
+	var fieldCon *Contract
+	if callee == nil && !cc.IsInvoke() {
+		if ld, ok := cc.Value.(*ssa.UnOp); ok && ld.Op == token.MUL {
+			if fa, ok := ld.X.(*ssa.FieldAddr); ok {
+				st := derefType(fa.X.Type())
+				if n, ok := st.(*types.Named); ok && n.Obj().Pkg() != nil {
+					fname := st.Underlying().(*types.Struct).Field(fa.Field).Name()
+					fieldCon = vc.P.Contracts[n.Obj().Pkg().Path()+"::"+n.Obj().Name()+"."+fname]
+				}
+			}
+		}
+	}
 	var full string
 	if callee != nil {
 		full = callee.String()
@@ -188,6 +202,8 @@ func (vc *VC) call(fr *Frame, st *State, ins ssa.Instruction, cc *ssa.CallCommon
 		con = vc.P.contractOf(callee)
 	} else if cc.IsInvoke() {
 		con = vc.ifaceContract(cc)
+	} else if fieldCon != nil {
+		con = fieldCon
 	}
 	if con == nil {
 		for _, ec := range vc.P.Externs[full] {
@@ -533,8 +549,12 @@ func (vc *VC) modTarget(env *SpecEnv, m *SExpr) modTgt {
 					return modTgt{kind: "comp", comp: pfx + tn}
 				}
 			}
-			// not yet registered: register by name lookup
-			if t := vc.lookupTypeByKey(env, tn); t != nil {
+			// not yet registered: resolve the type expression and register the component
+			if t := vc.resolveTypeExpr(env, tn); t != nil {
+				switch u := t.Underlying().(type) {
+				case *types.Map:
+					return modTgt{kind: "comp", comp: vc.mapInfoOf(u).comp}
+				}
 				return modTgt{kind: "comp", comp: vc.ptrComp(t)}
 			}
 			env.fail("unknown heap component %s", tn)
@@ -866,4 +886,46 @@ func (vc *VC) flagConst(name string) Term {
 		vc.flagsUsed = append(vc.flagsUsed, name)
 	}
 	return mk(n, sortBool)
+}
+
+// resolveTypeExpr resolves a small type expression (map[K]V, []T, *T, pkg.Name, Name, basic) in the
+// context of the specification's package.
+func (vc *VC) resolveTypeExpr(env *SpecEnv, s string) types.Type {
+	s = strings.TrimSpace(s)
+	switch {
+	case strings.HasPrefix(s, "map["):
+		depth := 0
+		for i := 3; i < len(s); i++ {
+			if s[i] == '[' {
+				depth++
+			} else if s[i] == ']' {
+				depth--
+				if depth == 0 {
+					k := vc.resolveTypeExpr(env, s[4:i])
+					v := vc.resolveTypeExpr(env, s[i+1:])
+					if k == nil || v == nil {
+						return nil
+					}
+					return types.NewMap(k, v)
+				}
+			}
+		}
+		return nil
+	case strings.HasPrefix(s, "[]"):
+		if e := vc.resolveTypeExpr(env, s[2:]); e != nil {
+			return types.NewSlice(e)
+		}
+		return nil
+	case strings.HasPrefix(s, "*"):
+		if e := vc.resolveTypeExpr(env, s[1:]); e != nil {
+			return types.NewPointer(e)
+		}
+		return nil
+	case s == "struct{}":
+		return types.NewStruct(nil, nil)
+	}
+	if b := basicByName(s); b != nil {
+		return b
+	}
+	return vc.lookupTypeByKey(env, s)
 }
